@@ -260,7 +260,8 @@ def nopanic(F, roots=None, rule="R-NOPANIC", title=None, prop_label="parse"):
             t = s["term"]
             file = fn["file"]
             snip = snippet(repo, file, s["sp"])
-            key = "%s | %s | %s" % (p, kind, snip)
+            # closure numbering shifts when an unrelated closure is added: key by parent + snippet
+            key = "%s | %s | %s" % (re.sub(r"\{closure#\d+\}", "{closure}", p), kind, snip)
             where = "%s:%d" % (file, s["sp"][0])
             # ---- guard idioms ------------------------------------------------
             if kind.startswith("assert:Overflow"):
